@@ -9,7 +9,7 @@ PROPS = {
     "C11": ["c11_clocks", "c06_bracketing"],
     "C21": ["c21_needs"],
     "C24": ["c24_streams", "c24_serial"],
-    "C25": ["c24_streams", "c24_serial", "c35_gramstack"],
+    "C25": ["c24_streams", "c24_serial", "c35_gramstack", "c25_udp"],
     "C26": ["c26_server"],
     "C28": ["c24_streams", "c28_connects"],
     "C37": ["c37_remotes"],
